@@ -677,3 +677,19 @@ Proof.
   apply concat_nth_fixed; [|exact Hi].
   eapply Forall_impl; [|exact Hf]. intros v Hv. cbv beta in Hv. lia.
 Qed.
+
+(* ================= summaries used by props/C06.v ================= *)
+Theorem prefix_conversion_all : forall bits : list bool,
+  conv_prefix (ctl_of_bits bits) = Ok (bitstr_of_bits bits) /\
+  length (ctl_of_bits bits) = length (bitstr_of_bits bits) /\
+  bitstr_len (bitstr_of_bits bits) = Z.of_nat (length bits) /\
+  bitstr_bits (bitstr_of_bits bits) = bits.
+Proof.
+  intros bits. split; [apply conv_prefix_ctl|]. split; [apply ctl_bitstr_same_length|].
+  split; [apply bitstr_len_of_bits|apply bitstr_bits_of_bits].
+Qed.
+
+Theorem prefix_buffer_all : forall bss : list (list bool),
+  conv_all (map ctl_of_bits bss) = Ok (map bitstr_of_bits bss) /\
+  map (@length Z) (map ctl_of_bits bss) = map (@length Z) (map bitstr_of_bits bss).
+Proof. intros bss. split; [apply conv_all_ctl|apply conv_all_positions]. Qed.
